@@ -14,9 +14,18 @@
 //
 // What the statement does not fix is kept out of the comparison (guards, each counted in the evidence):
 //   chained a^b^c, a sign directly in front of a ^ operand, division by zero, LN/LOG/AVEG/pow domain errors,
-//   non-finite or huge intermediates, NINT at .5, SORTA/SORTD ties, comparisons closer than 1% (the library
-//   applies the UDQPARAM tolerance there), chains of comparisons / of union operators whose two groupings
-//   differ, reductions or sorts of expressions that are scalars, evaluation-order-dependent DEFINE sets.
+//   non-finite or huge intermediates, ill-conditioned results, NINT at .5, SORTA/SORTD ties, comparisons closer
+//   than 1% (the library applies the UDQPARAM tolerance there), chains of comparisons / of union operators whose
+//   two groupings differ, reductions or sorts of expressions that are scalars, evaluation-order-dependent DEFINEs.
+// Tolerance: the reference carries a forward bound on the rounding error of a correct evaluation along with
+//   every value; the library must agree within 32 x that bound + 1e-13 relative.
+// Violation keys: the failing expression is reduced to its smallest failing sub-expression (every sub-expression
+//   is evaluated on its own by both sides); the key names the library mechanism its top operator runs into
+//   (pow-followed-by-mul-div, pow-scalar-with-set, ...), `<mechanism>:in-operand` if such a construct sits in an
+//   operand that happened to pass on its own, else expr:<operator>:<symptom> / func:<NAME>:<symptom>.
+//   History keys: history:<last record on the quantity that is wrong by itself>.
+// Options: hist_every=n (0: expressions only), avoid_known=1 (regenerate expressions that contain a construct
+//   with a known mechanism), debug_tol=x.
 #include <opm/common/OpmLog/KeywordLocation.hpp>
 #include <opm/common/utility/TimeService.hpp>
 #include <opm/input/eclipse/Deck/Deck.hpp>
@@ -88,8 +97,9 @@ static const std::vector<std::string> W_SUMMARY = {"WOPR", "WWPR", "WGPR", "WBHP
 // =============================================================================================
 struct Val {
     bool set = false;
-    std::vector<double> v;
-    std::vector<char> d;
+    std::vector<double> v;      // value
+    std::vector<char> d;        // defined?
+    std::vector<double> e;      // bound on the rounding error a correct evaluation may carry (forward error analysis)
     size_t size() const { return v.size(); }
     size_t ndef() const { size_t n = 0; for (char c : d) n += c ? 1 : 0; return n; }
 };
@@ -248,22 +258,20 @@ struct RefEval {
         return false;
     }
 
-    static Val scalar(bool def, double x) { Val r; r.set = false; r.v = {def ? x : 0.0}; r.d = {(char)def}; return r; }
+    // a few units in the last place of r: what one correctly rounded operation (or a re-ordered sum) may differ by
+    static double ulps(double r) { return 4 * 2.220446049250313e-16 * std::fabs(r); }
+    static Val scalar(bool def, double x, double err = 0) { Val r; r.set = false; r.v = {def ? x : 0.0}; r.d = {(char)def}; r.e = {def ? err : 0.0}; return r; }
     size_t n() const { return w.ents(dom).size(); }
-    Val blank(bool set) const { Val r; r.set = set; size_t k = set ? n() : 1; r.v.assign(k, 0.0); r.d.assign(k, 0); return r; }
+    Val blank(bool set) const { Val r; r.set = set; size_t k = set ? n() : 1; r.v.assign(k, 0.0); r.d.assign(k, 0); r.e.assign(k, 0.0); return r; }
     double seen(double x) {
         if (!std::isfinite(x)) throw Guard{"non-finite-intermediate"};
         if (std::fabs(x) > 1e12) throw Guard{"huge-intermediate"};
         if (std::fabs(x) > maxmag) maxmag = std::fabs(x);
         return x;
     }
-    void put(Val& r, size_t i, double x) { r.v[i] = seen(x); r.d[i] = 1; }
-
-    // does the subtree contain a reduction whose rounding depends on the summation order?
-    bool orderSensitive(int i) const {
-        const Node& nd = ast.n[i];
-        if (nd.kind == FUNC && (nd.s == "SUM" || nd.s == "PROD" || nd.s == "AVEA" || nd.s == "AVEG" || nd.s == "AVEH" || nd.s == "NORM1" || nd.s == "NORM2")) return true;
-        return (nd.a >= 0 && orderSensitive(nd.a)) || (nd.b >= 0 && orderSensitive(nd.b));
+    void put(Val& r, size_t i, double x, double err) {
+        r.v[i] = seen(x); r.d[i] = 1; r.e[i] = err;
+        if (!std::isfinite(err) || err > 1e-3 * std::max(std::fabs(x), 1e-300) + 1e-9) throw Guard{"ill-conditioned"};   // nothing left to compare
     }
 
     Val eval(int i) {
@@ -300,7 +308,7 @@ struct RefEval {
         for (size_t k = 0; k < e.size(); ++k) {
             if (nd.hasSel && !globMatch(nd.sel.c_str(), e[k].c_str())) continue;
             auto it = vals.find(e[k]);
-            if (it != vals.end()) put(r, k, it->second);
+            if (it != vals.end()) put(r, k, it->second, 0.0);
         }
         return r;
     }
@@ -312,28 +320,56 @@ struct RefEval {
             // turns number literals into sets when the target is a well/group quantity)
             if (ast.n[nd.a].kind != QTY) throw Guard{"reduction-of-scalar-expression"};
         }
-        std::vector<double> x;
-        for (size_t k = 0; k < a.size(); ++k) if (a.d[k]) x.push_back(a.v[k]);
+        std::vector<double> x, ex;
+        for (size_t k = 0; k < a.size(); ++k) if (a.d[k]) { x.push_back(a.v[k]); ex.push_back(a.e[k]); }
         if (x.empty()) { hazard = true; return scalar(false, 0); }
-        const double cnt = (double)x.size();
-        double r = 0;
+        const size_t m = x.size();
+        const double cnt = (double)m;
+        double r = 0, err = 0;
         const std::string& f = nd.s;
-        if (f == "SUM") { for (double v : x) r += v; }
-        else if (f == "AVEA") { for (double v : x) r += v; r /= cnt; }
-        else if (f == "AVEG") { for (double v : x) { if (v <= 0) throw Guard{"AVEG-non-positive"}; r += std::log(v); } r = std::exp(r / cnt); }
+        if (f == "SUM" || f == "AVEA" || f == "NORM1") {
+            double mag = 0;
+            for (size_t i = 0; i < m; ++i) { r += f == "NORM1" ? std::fabs(x[i]) : x[i]; mag += std::fabs(x[i]); err += ex[i]; }
+            err += cnt * ulps(mag);
+            if (f == "AVEA") { r /= cnt; err = err / cnt + ulps(r); }
+        }
+        else if (f == "AVEG") {
+            double lerr = 0, lmag = 0;
+            for (size_t i = 0; i < m; ++i) {
+                if (x[i] <= 0) throw Guard{"AVEG-non-positive"};
+                const double l = std::log(x[i]);
+                r += l; lmag += std::fabs(l); lerr += ex[i] / x[i] + ulps(l);
+            }
+            lerr += cnt * ulps(lmag);
+            r = std::exp(r / cnt); err = r * (lerr / cnt) + 2 * ulps(r); }
         else if (f == "AVEH") {
-            double big = 0;
-            for (double v : x) { if (v == 0) throw Guard{"AVEH-zero"}; r += 1.0 / v; big = std::max(big, std::fabs(1.0 / v)); }
+            double big = 0, serr = 0;
+            for (size_t i = 0; i < m; ++i) {
+                if (x[i] == 0) throw Guard{"AVEH-zero"};
+                const double t = 1.0 / x[i];
+                r += t; big += std::fabs(t); serr += ex[i] / (x[i] * x[i]) + ulps(t);
+            }
+            serr += cnt * ulps(big);
             if (std::fabs(r) < 1e-6 * big) throw Guard{"AVEH-cancelling"};
-            r = cnt / r; }
-        else if (f == "MAX") { r = x[0]; for (double v : x) r = std::max(r, v); }
-        else if (f == "MIN") { r = x[0]; for (double v : x) r = std::min(r, v); }
-        else if (f == "NORM1") { for (double v : x) r += std::fabs(v); }
-        else if (f == "NORM2") { for (double v : x) r += v * v; r = std::sqrt(r); }
-        else if (f == "NORMI") { for (double v : x) r = std::max(r, std::fabs(v)); }
-        else if (f == "PROD") { r = 1; for (double v : x) r = seen(r * v); }
+            err = cnt * serr / (r * r); r = cnt / r; err += ulps(r); }
+        else if (f == "MAX" || f == "MIN" || f == "NORMI") {
+            r = f == "NORMI" ? std::fabs(x[0]) : x[0];
+            for (size_t i = 0; i < m; ++i) {
+                const double v = f == "NORMI" ? std::fabs(x[i]) : x[i];
+                r = f == "MIN" ? std::min(r, v) : std::max(r, v); err = std::max(err, ex[i]);
+            } }
+        else if (f == "NORM2") {
+            double serr = 0;
+            for (size_t i = 0; i < m; ++i) { r += x[i] * x[i]; serr += 2 * std::fabs(x[i]) * ex[i] + ulps(x[i] * x[i]); }
+            serr += cnt * ulps(r);
+            r = std::sqrt(r); err = (r > 0 ? serr / (2 * r) : std::sqrt(serr)) + ulps(r); }
+        else if (f == "PROD") {
+            r = 1;
+            for (size_t i = 0; i < m; ++i) { err = std::fabs(r) * ex[i] + std::fabs(x[i]) * err; r = seen(r * x[i]); err += ulps(r); } }
         else throw std::logic_error("reference: reduction " + f);
-        return scalar(true, seen(r));
+        Val out = blank(false);
+        put(out, 0, r, err);
+        return out;
     }
 
     Val elemental(const Node& nd) {
@@ -345,37 +381,33 @@ struct RefEval {
             std::vector<size_t> ix;
             for (size_t k = 0; k < a.size(); ++k) if (a.d[k]) ix.push_back(k);
             for (size_t p = 0; p < ix.size(); ++p) for (size_t q = p + 1; q < ix.size(); ++q) {
-                double x = a.v[ix[p]], y = a.v[ix[q]];
-                if (std::fabs(x - y) <= 1e-9 * std::max({std::fabs(x), std::fabs(y), 1e-300}) || x == y) throw Guard{"sort-tie"};
+                const double x = a.v[ix[p]], y = a.v[ix[q]];
+                if (std::fabs(x - y) <= 1e-9 * std::max(std::fabs(x), std::fabs(y)) + 1000 * (a.e[ix[p]] + a.e[ix[q]])) throw Guard{"sort-tie"};
             }
             std::sort(ix.begin(), ix.end(), [&](size_t p, size_t q) { return f == "SORTA" ? a.v[p] < a.v[q] : a.v[p] > a.v[q]; });
-            for (size_t p = 0; p < ix.size(); ++p) put(r, ix[p], (double)(p + 1));
+            for (size_t p = 0; p < ix.size(); ++p) put(r, ix[p], (double)(p + 1), 0.0);
             return r;
         }
         for (size_t k = 0; k < a.size(); ++k) {
-            const bool def = a.d[k]; const double x = a.v[k];
-            if (f == "IDV") { put(r, k, def ? 1.0 : 0.0); continue; }
-            if (f == "UNDEF") { if (!def) put(r, k, 1.0); continue; }
+            const bool def = a.d[k]; const double x = a.v[k], ex = a.e[k];
+            if (f == "IDV") { put(r, k, def ? 1.0 : 0.0, 0.0); continue; }
+            if (f == "UNDEF") { if (!def) put(r, k, 1.0, 0.0); continue; }
             if (!def) continue;
-            if (f == "DEF") put(r, k, 1.0);
-            else if (f == "ABS") put(r, k, std::fabs(x));
-            else if (f == "EXP") put(r, k, std::exp(x));
-            else if (f == "LN") { if (x <= 0) throw Guard{"LN-non-positive"}; put(r, k, std::log(x)); }
-            else if (f == "LOG") { if (x <= 0) throw Guard{"LOG-non-positive"}; put(r, k, std::log10(x)); }
+            if (f == "DEF") put(r, k, 1.0, 0.0);
+            else if (f == "ABS") put(r, k, std::fabs(x), ex);
+            else if (f == "EXP") { const double y = std::exp(x); put(r, k, y, std::fabs(y) * ex + ulps(y)); }
+            else if (f == "LN") { if (x <= 0) throw Guard{"LN-non-positive"}; const double y = std::log(x); put(r, k, y, ex / x + ulps(y)); }
+            else if (f == "LOG") { if (x <= 0) throw Guard{"LOG-non-positive"}; const double y = std::log10(x); put(r, k, y, ex / (x * std::log(10.0)) + ulps(y)); }
             else if (f == "NINT") {
-                double fl = std::floor(x);
-                if (std::fabs((x - fl) - 0.5) < 1e-6) throw Guard{"NINT-half"};
-                put(r, k, std::floor(x + 0.5)); }
+                if (std::fabs((x - std::floor(x)) - 0.5) <= 1e-6 + 1000 * ex) throw Guard{"NINT-half"};
+                put(r, k, std::floor(x + 0.5), 0.0); }
             else throw std::logic_error("reference: elemental " + f);
         }
         return r;
     }
 
     Val binary(const Node& nd) {
-        // largest magnitude inside the two operand subtrees: the rounding noise a comparison has to stay clear of
-        const double saved = maxmag; maxmag = 0;
         Val a = eval(nd.a), b = eval(nd.b);
-        const double submag = maxmag; maxmag = std::max(saved, submag);
         const std::string& op = nd.s;
         const bool set = a.set || b.set;
         if (libShapeIsSet(nd.a) != libShapeIsSet(nd.b)) {
@@ -388,33 +420,48 @@ struct RefEval {
         for (size_t k = 0; k < r.size(); ++k) {
             const size_t ka = a.set ? k : 0, kb = b.set ? k : 0;
             const bool da = a.d[ka], db = b.d[kb];
-            const double x = a.v[ka], y = b.v[kb];
+            const double x = a.v[ka], y = b.v[kb], ex = a.e[ka], ey = b.e[kb];
             if (opClass(op) == "union") {
-                if (da && db) put(r, k, op == "UADD" ? x + y : op == "UMUL" ? x * y : op == "UMIN" ? std::min(x, y) : std::max(x, y));
-                else if (da) put(r, k, x);
-                else if (db) put(r, k, y);
+                if (da && db) {
+                    if (op == "UADD") put(r, k, x + y, ex + ey + ulps(x + y));
+                    else if (op == "UMUL") put(r, k, x * y, std::fabs(x) * ey + std::fabs(y) * ex + ulps(x * y));
+                    else put(r, k, op == "UMIN" ? std::min(x, y) : std::max(x, y), std::max(ex, ey));
+                }
+                else if (da) put(r, k, x, ex);
+                else if (db) put(r, k, y, ey);
                 continue;
             }
             if (!(da && db)) continue;      // undefined propagates
-            if (op == "+") put(r, k, x + y);
-            else if (op == "-") put(r, k, x - y);
-            else if (op == "*") put(r, k, x * y);
-            else if (op == "/") { if (y == 0) throw Guard{"division-by-zero"}; put(r, k, x / y); }
+            if (op == "+") put(r, k, x + y, ex + ey + ulps(x + y));
+            else if (op == "-") put(r, k, x - y, ex + ey + ulps(x - y));
+            else if (op == "*") put(r, k, x * y, std::fabs(x) * ey + std::fabs(y) * ex + ulps(x * y));
+            else if (op == "/") { if (y == 0) throw Guard{"division-by-zero"}; const double q = x / y; put(r, k, q, (ex + std::fabs(q) * ey) / std::fabs(y) + ulps(q)); }
             else if (op == "^") {
                 if (x < 0 && y != std::floor(y)) throw Guard{"pow-negative-base"};
                 if (x == 0 && y < 0) throw Guard{"pow-zero-base"};
-                put(r, k, std::pow(x, y)); }
+                if (x == 0 && (ex > 0 || ey > 0)) throw Guard{"ill-conditioned"};
+                if (x < 0 && ey > 0) throw Guard{"ill-conditioned"};
+                const double p = std::pow(x, y);
+                put(r, k, p, x == 0 ? 0.0 : std::fabs(p) * (std::fabs(y) * ex / std::fabs(x) + std::fabs(std::log(std::fabs(x))) * ey) + 2 * ulps(p)); }
             else {
                 // comparisons: 1 or 0.  Exactly equal operands and operands more than 1% apart are decided by
                 // the statement; in between the library applies its UDQPARAM tolerance -> not compared.
                 const double diff = std::fabs(x - y), scale = std::max(std::fabs(x), std::fabs(y));
-                if (x != y && (diff <= 0.01 * scale || diff <= 1e-9 * std::max(submag, 1e-300))) throw Guard{"comparison-near-tie"};
+                if (x != y && (diff <= 0.01 * scale || diff <= 1000 * (ex + ey))) throw Guard{"comparison-near-tie"};
+                if (x == y && (ex > 0 || ey > 0) && (op == "<" || op == ">" || 1000 * (ex + ey) > 1e-5 * scale)) throw Guard{"comparison-tie-of-rounded-values"};
                 if (x == y && (op == "<" || op == ">") && !tieSafe) throw Guard{"strict-comparison-tie-of-sums"};
                 bool t = op == "==" ? x == y : op == "!=" ? x != y : op == "<=" ? x <= y : op == ">=" ? x >= y : op == "<" ? x < y : x > y;
-                put(r, k, t ? 1.0 : 0.0);
+                put(r, k, t ? 1.0 : 0.0, 0.0);
             }
         }
         return r;
+    }
+
+    // does the subtree contain a reduction whose rounding depends on the summation order?
+    bool orderSensitive(int i) const {
+        const Node& nd = ast.n[i];
+        if (nd.kind == FUNC && (nd.s == "SUM" || nd.s == "PROD" || nd.s == "AVEA" || nd.s == "AVEG" || nd.s == "AVEH" || nd.s == "NORM1" || nd.s == "NORM2")) return true;
+        return (nd.a >= 0 && orderSensitive(nd.a)) || (nd.b >= 0 && orderSensitive(nd.b));
     }
 };
 
@@ -439,7 +486,7 @@ static RefResult referenceEvaluate(const World& w, char dom, const Tokens& t, bo
         Val v2 = e2.eval(alt.root);
         bool same = v2.set == out.val.set && v2.d == out.val.d;
         for (size_t k = 0; same && k < v2.size(); ++k)
-            if (v2.d[k] && std::fabs(v2.v[k] - out.val.v[k]) > 1e-12 * std::max(1.0, std::fabs(v2.v[k]))) same = false;
+            if (v2.d[k] && std::fabs(v2.v[k] - out.val.v[k]) > 1e-13 * std::fabs(v2.v[k]) + 32 * (v2.e[k] + out.val.e[k])) same = false;
         if (keepBothReadings) { out.hasAlt = true; out.altVal = v2; out.altAst = std::move(alt); out.maxmag = std::max(out.maxmag, e2.maxmag); }
         else if (!same) throw Guard{"grouping-of-equal-rank-comparison-or-union-not-fixed"};
     }
@@ -548,7 +595,7 @@ static RealOut realEvaluate(RealWorld& rw, const std::string& target, const Toke
 // ---------------------------------------------------------------------------------------------
 // comparison of one evaluation; returns "" or the symptom
 // ---------------------------------------------------------------------------------------------
-struct Diff { std::string symptom, detail; int element = -1; double maxErr = 0; };     // maxErr: largest |library - reference| / largest intermediate
+struct Diff { std::string symptom, detail; int element = -1; double maxErr = 0, maxTolUsed = 0; };     // among agreeing elements: largest relative difference where the error bound is below 1e-13 relative; largest difference / tolerance
 
 static Diff compare(const World& w, char dom, char targetKind, const RefResult& ref, const RealOut& real) {
     Diff df;
@@ -557,8 +604,6 @@ static Diff compare(const World& w, char dom, char targetKind, const RefResult& 
     // expected per element of the target
     std::vector<std::string> names;
     if (targetKind == 'F') names = {""}; else names = w.ents(dom);
-    // tolerance: rounding only; the reference performs the same IEEE operations, reductions may differ in order
-    const double tol = 1e-10 * std::max(ref.maxmag, 1e-300);
     if (real.names.size() != names.size()) {
         df.symptom = "shape"; o << "result has " << real.names.size() << " elements, expected " << names.size(); df.detail = o.str(); return df;
     }
@@ -577,8 +622,12 @@ static Diff compare(const World& w, char dom, char targetKind, const RefResult& 
             o << ", got "; if (real.d[j]) o << real.v[j]; else o << "undefined";
             df.detail = o.str(); return df;
         }
-        if (ed) df.maxErr = std::max(df.maxErr, std::fabs(real.v[j] - ev) / std::max(ref.maxmag, 1e-300));
-        if (ed && !(std::fabs(real.v[j] - ev) <= tol + 1e-12 * std::fabs(ev))) {
+        // tolerance: rounding only.  The reference carries a forward bound on the rounding error of a correct
+        // evaluation (same IEEE operations; sums may be ordered differently); 32 x that bound + 1e-13 relative.
+        const double tol = 32 * ref.val.e[kr] + 1e-13 * std::fabs(ev);
+        if (ed && ev != 0 && ref.val.e[kr] < 1e-13 * std::fabs(ev)) df.maxErr = std::max(df.maxErr, std::fabs(real.v[j] - ev) / std::fabs(ev));
+        if (ed && tol > 0) df.maxTolUsed = std::max(df.maxTolUsed, std::fabs(real.v[j] - ev) / tol);
+        if (ed && !(std::fabs(real.v[j] - ev) <= tol)) {
             df.symptom = "value"; df.element = (int)kr;
             o << (names[k].empty() ? "value" : names[k]) << ": expected " << ev << ", got " << real.v[j];
             df.detail = o.str(); return df;
@@ -634,13 +683,15 @@ struct Mechanisms {
             const size_t ka = L.set ? k : 0, kb = R.set ? k : 0;
             if (cls == "pow" && L.d[ka] && !R.d[kb]) return "pow-undefined-operand";
             if (cls == "cmp" && nd.s != "<" && nd.s != ">" && L.d[ka] && R.d[kb]) {
-                if (L.v[ka] == 0 && R.v[kb] != 0) return "cmp-zero-lhs";
+                // (left operand zero, or so small that (lhs - rhs) / lhs overflows)
+                if (L.v[ka] != R.v[kb] && (L.v[ka] == 0 || !std::isfinite((L.v[ka] - R.v[kb]) / L.v[ka]))) return "cmp-zero-lhs";
                 if (L.v[ka] < 0 && L.v[ka] != R.v[kb] && (nd.s == "<=" || nd.s == ">=")) return "cmp-le-ge-negative-lhs";
             }
         }
         return "";
     }
-    std::string anywhere() { for (int i = 0; i < (int)a.n.size(); ++i) { std::string m = at(i); if (!m.empty()) return m; } return ""; }
+    std::vector<std::string> all() { std::vector<std::string> r; for (int i = 0; i < (int)a.n.size(); ++i) { std::string m = at(i); if (!m.empty() && !in(r, m)) r.push_back(m); } return r; }
+    std::string anywhere() { auto r = all(); return r.empty() ? "" : r[0]; }
 };
 
 static Classified classify(const World& w, RealWorld& rw, char dom, char targetKind, const Tokens& t, const RefResult& ref, const Diff& whole) {
@@ -660,18 +711,23 @@ static Classified classify(const World& w, RealWorld& rw, char dom, char targetK
             // well/group target likewise; under a field target (where it stood inside a reduction, and number
             // literals are scalars) it is evaluated as FUX = SUM( sub ), or SUM( IDV( sub ) ) if it is undefined throughout.
             RefResult r0 = referenceEvaluate(w, dom, sub, false, true);
-            const int wrap = !(r0.val.set && targetKind == 'F') ? 0 : r0.val.ndef() > 0 ? 1 : 2;
-            const char tk = wrap ? 'F' : r0.val.set ? dom : targetKind;
-            Tokens ev;
-            if (wrap == 1) ev = {"SUM", "("}; else if (wrap == 2) ev = {"SUM", "(", "IDV", "("};
-            ev.insert(ev.end(), sub.begin(), sub.end());
-            for (int i = 0; i < wrap; ++i) ev.push_back(")");
-            RefResult r = referenceEvaluate(w, dom, ev, tk != 'F', true);
-            RealOut ro = realEvaluate(rw, targetName(tk), ev);
-            if (ro.threw && ro.msg.find("not yet supported") != std::string::npos) continue;
-            Diff d = compare(w, dom, tk, r, ro);
-            if (!d.symptom.empty() && r.hasAlt) { RefResult r2 = r; r2.val = r.altVal; if (compare(w, dom, tk, r2, ro).symptom.empty()) d = Diff{}; }
-            if (!d.symptom.empty()) { minTok = ev; minDiff = d; minTarget = tk; wrapLevels = wrap; break; }
+            const int wrap0 = !(r0.val.set && targetKind == 'F') ? 0 : r0.val.ndef() > 0 ? 1 : 2;
+            // (the sum may hide per-element errors that cancel: such a set is also evaluated under a set target)
+            bool found = false;
+            for (int wrap : (wrap0 ? std::vector<int>{wrap0, 0} : std::vector<int>{0})) {
+                const char tk = wrap ? 'F' : r0.val.set ? dom : targetKind;
+                Tokens ev;
+                if (wrap == 1) ev = {"SUM", "("}; else if (wrap == 2) ev = {"SUM", "(", "IDV", "("};
+                ev.insert(ev.end(), sub.begin(), sub.end());
+                for (int i = 0; i < wrap; ++i) ev.push_back(")");
+                RefResult r = referenceEvaluate(w, dom, ev, tk != 'F', true);
+                RealOut ro = realEvaluate(rw, targetName(tk), ev);
+                if (ro.threw && ro.msg.find("not yet supported") != std::string::npos) continue;
+                Diff d = compare(w, dom, tk, r, ro);
+                if (!d.symptom.empty() && r.hasAlt) { RefResult r2 = r; r2.val = r.altVal; if (compare(w, dom, tk, r2, ro).symptom.empty()) d = Diff{}; }
+                if (!d.symptom.empty()) { minTok = ev; minDiff = d; minTarget = tk; wrapLevels = wrap; found = true; break; }
+            }
+            if (found) break;
         }
         catch (const Guard&) { continue; }
     }
@@ -698,11 +754,16 @@ static Classified classify(const World& w, RealWorld& rw, char dom, char targetK
     }
     // 3. the smallest failing expression contains a construct with a known mechanism in an operand that
     //    happened to pass on its own (typically because the library groups the operators differently)
+    //    Only where that can explain the symptom: a throw comes from wherever it is raised; a different grouping
+    //    (^ before * /, chains of comparisons / unions), a different shape (scalar ^ set comes back as a scalar) or
+    //    different defined-ness (x ^ undefined stays x) changes values without failing on its own; otherwise the operator or function at the top is itself at fault and gets its own key below.
     for (const Ast* a : {&both.ast, &both.altAst}) {
         if (a->n.empty()) continue;
         Mechanisms m(w, dom, *a, minTarget != 'F');
-        std::string k = m.anywhere();
-        if (!k.empty()) { c.key = k + ":in-operand"; return c; }
+        const auto found = m.all();
+        if (found.empty()) continue;
+        if (sym == "throw" || both.hasAlt) { c.key = found[0] + ":in-operand"; return c; }
+        for (const char* k : {"pow-followed-by-mul-div", "pow-scalar-with-set", "pow-undefined-operand"}) if (in(found, k)) { c.key = std::string(k) + ":in-operand"; return c; }
     }
     // 4. nothing recognised: operator / function and operand shapes
     const Ast& a = both.ast;
@@ -710,7 +771,8 @@ static Classified classify(const World& w, RealWorld& rw, char dom, char targetK
     const Node& top = a.n[topOf(a)];
     if (top.kind == BIN) {
         Val L = m.operand(top.a), R = m.operand(top.b);
-        c.key = "expr:" + top.s + ":" + (L.v.empty() ? "?" : m.shape(top.a, L)) + "," + (R.v.empty() ? "?" : m.shape(top.b, R)) + ":" + sym;
+        c.key = "expr:" + top.s + ":" + sym;
+        c.minimal += "   [operands: " + (L.v.empty() ? "?" : m.shape(top.a, L)) + ", " + (R.v.empty() ? "?" : m.shape(top.b, R)) + "]";
     }
     else if (top.kind == FUNC) c.key = "func:" + top.s + ":" + sym;
     else if (top.kind == QTY) c.key = "quantity:" + std::string(1, top.s[0]) + (isUdqName(top.s) ? "-udq" : "-summary") + (!top.hasSel ? "" : top.sel.find('*') != std::string::npos ? "-wildcard" : "-named") + ":" + sym;
@@ -885,6 +947,7 @@ static Tokens directedExpression(Rng& rng, const World& w, char dom, bool S, con
 // =============================================================================================
 static const int PAIR_VARIANTS = 8;
 static bool AVOID_KNOWN = false;
+static double DEBUG_TOL = 0;      // debug_tol=x: log agreeing cases that use more than x of the tolerance
 static std::vector<std::pair<std::string, std::string>> allPairs() {
     std::vector<std::pair<std::string, std::string>> p;
     for (auto& a : ALLOPS) for (auto& b : ALLOPS) if (!(a == "^" && b == "^")) p.emplace_back(a, b);   // a^b^c: guard
@@ -915,7 +978,7 @@ static void expressionCase(vh::Reporter& rep, long idx, long eidx, Rng& rng) {
             if (ref.hasAlt) {
                 bool same = ref.altVal.set == ref.val.set && ref.altVal.d == ref.val.d;
                 for (size_t k = 0; same && k < ref.val.size(); ++k)
-                    if (ref.val.d[k] && std::fabs(ref.altVal.v[k] - ref.val.v[k]) > 1e-12 * std::max(1.0, std::fabs(ref.val.v[k]))) same = false;
+                    if (ref.val.d[k] && std::fabs(ref.altVal.v[k] - ref.val.v[k]) > 1e-13 * std::fabs(ref.val.v[k]) + 32 * (ref.altVal.e[k] + ref.val.e[k])) same = false;
                 if (!same) throw Guard{"grouping-of-equal-rank-comparison-or-union-not-fixed"};
             }
             if (AVOID_KNOWN) {
@@ -964,7 +1027,18 @@ static void expressionCase(vh::Reporter& rep, long idx, long eidx, Rng& rng) {
     if (eidx == 0 || eidx == 2000 || eidx == 2001) rep.sample(caseText + "reference: " + [&] { std::ostringstream o; o.precision(17); for (size_t k = 0; k < ref.val.size(); ++k) { o << " "; if (ref.val.d[k]) o << ref.val.v[k]; else o << "undef"; } return o.str(); }() + "\nlibrary:   " + real.text());
 
     Diff df = compare(w, dom, targetKind, ref, real);
-    if (df.symptom.empty()) { rep.maxof("max_abs_difference_relative_to_largest_intermediate", df.maxErr); return; }
+    if (ref.hasAlt) {
+        // the two groupings of a comparison / union chain agree up to rounding; the library may follow either
+        RefResult other = ref; other.val = ref.altVal;
+        Diff d2 = compare(w, dom, targetKind, other, real);
+        if (d2.symptom.empty() && (!df.symptom.empty() || d2.maxTolUsed < df.maxTolUsed)) df = d2;
+    }
+    if (df.symptom.empty()) {
+        rep.maxof("max_relative_difference_of_agreeing_well_conditioned_values", df.maxErr);
+        rep.maxof("max_difference_over_tolerance", df.maxTolUsed);
+        if (DEBUG_TOL > 0 && df.maxTolUsed > DEBUG_TOL) fprintf(stderr, "case %ld agrees using %g of the tolerance\n%slibrary: %s\n", idx, df.maxTolUsed, caseText.c_str(), real.text().c_str());
+        return;
+    }
     if (real.atConstruction) {
         rep.violation("define-refused", "a DEFINE from the documented grammar is refused: " + real.msg, caseText + "library: " + real.text());
         return;
@@ -982,7 +1056,7 @@ struct HRecord { std::string action, q, sel; double value = 0; std::string value
 struct HStep { std::vector<HRecord> records; double fopr = 0; std::map<std::string, double> wopr; };
 struct HQuantity {
     std::string action = "none", status = "ON", lastRecord = "none";
-    Tokens expr; bool everDefined = false; int firstMention = -1, lastDefine = -1, defineStep = -1;
+    Tokens expr; bool everDefined = false; int firstMention = -1, lastDefine = -1, defineStep = -1, evaluatedAtStep = -1;
 };
 
 static std::string recordText(const HRecord& r) {
@@ -1108,7 +1182,7 @@ struct HistoryModel {
             RefResult r;
             try { r = referenceEvaluate(w, 'W', x.expr, o.second[0] == 'W'); } catch (const Guard&) { hazard = true; return; }
             if (r.hazard) { hazard = true; return; }      // would exercise a construct that part "expr" reports on its own
-            ++definesEvaluated;
+            ++definesEvaluated; x.evaluatedAtStep = s;
             if (o.second[0] == 'F') { if (r.val.d[0]) w.fq[o.second] = r.val.v[0]; else w.fq.erase(o.second); }
             else {
                 auto& m = w.wq[o.second]; m.clear();
@@ -1203,21 +1277,27 @@ static void historyCase(vh::Reporter& rep, long idx, Rng& rng) {
             }
             if (!wrong.empty()) {
                 // name the quantity that is wrong by itself, not one that merely reads a wrong quantity
-                std::string pick = wrong.begin()->first;
+                // (first choice: one the reference did not evaluate in this step at all; then one whose DEFINE reads no wrong quantity)
+                std::string pick;
+                for (auto& kv : wrong) if (pick.empty() && model.q[kv.first].evaluatedAtStep != s) pick = kv.first;
                 for (auto& kv : wrong) {
                     const HQuantity& x = model.q[kv.first];
                     bool readsWrong = false;
-                    if (x.action == "DEFINE") for (auto& tk : x.expr) if (tk != kv.first && wrong.count(tk)) readsWrong = true;
-                    if (!readsWrong) { pick = kv.first; break; }
+                    for (auto& tk : x.expr) if (tk != kv.first && wrong.count(tk)) readsWrong = true;
+                    if (pick.empty() && !readsWrong) pick = kv.first;
                 }
-                rep.violation("history:" + model.q[pick].lastRecord + ":" + wrong[pick].first, wrong[pick].second, trace.str() + wrong[pick].second + "\ncase index " + std::to_string(idx));
+                if (pick.empty()) pick = wrong.begin()->first;
+                rep.violation("history:" + model.q[pick].lastRecord, wrong[pick].first + ": " + wrong[pick].second, trace.str() + wrong[pick].second + "\ncase index " + std::to_string(idx));
                 rep.case_done(hh, true);
                 return;
             }
         }
     }
     catch (const std::exception& e) {
-        rep.violation("history:throw", "a valid ASSIGN/DEFINE/UPDATE history made the library throw: " + innermost(e), trace.str() + "exception: " + innermost(e) + "\ncase index " + std::to_string(idx));
+        // a DEFINE that is evaluated although the reference has it switched off can run into anything
+        std::string key = "history:throw";
+        for (auto& kv : model.q) if (kv.second.lastRecord == "update-NEXT" || kv.second.lastRecord == "update-OFF") key = "history:" + kv.second.lastRecord;
+        rep.violation(key, "a valid ASSIGN/DEFINE/UPDATE history made the library throw: " + innermost(e), trace.str() + "exception: " + innermost(e) + "\ncase index " + std::to_string(idx));
         rep.case_done(hh, true);
         return;
     }
@@ -1235,6 +1315,7 @@ int main(int argc, char** argv) {
     vh::Reporter rep(args, "C17");
     const long histEvery = args.geti("hist_every", 41);       // coprime with the shard count
     AVOID_KNOWN = args.geti("avoid_known", 0) != 0;
+    DEBUG_TOL = args.getd("debug_tol", 0);
     rep.run_cases([&](long idx, Rng& rng) {
         if (histEvery > 0 && idx % histEvery == histEvery - 1) historyCase(rep, idx, rng);
         else expressionCase(rep, idx, histEvery > 0 ? idx - idx / histEvery : idx, rng);
